@@ -1229,3 +1229,26 @@ v("P-server-connection-list-per-instance", [(_SRVF, "    _client_class: type[Cli
 # R18.3 (i'): the parser hooks run inside parse_args
 v("parser-error-wraps-message-to-client-width", [(PA, "        super().error(message=message)\n", "        import textwrap\n        message = textwrap.fill(message, width=self._terminal_width, max_lines=10)\n        super().error(message=message)\n")], {"C18": "R18.3"})
 v("P-parser-error-strips-message", [(PA, "        super().error(message=message)\n", "        message = message.strip()\n        super().error(message=message)\n")], {"C18": "ok", "C17": "ok"})
+# rf184: argparse keys and the name 'self' as private module constants (normaliser: _PrivateConsts)
+v("P-private-constants-for-keys", [], {"C16": "ok", "C17": "ok", "C18": "ok", "C05": "ok"}, base="rf184")
+v("private-constant-type-key-misspelt", [(PA, '_ACTION, _DEFAULT, _NARGS, _TYPE = "action", "default", "nargs", "type"', '_ACTION, _DEFAULT, _NARGS, _TYPE = "action", "default", "nargs", "typ"')], {"C17": "alarm"}, base="rf184")
+v("private-constant-self-name-wrong", [(SESS, '_SELF_PARAM = "self"', '_SELF_PARAM = "cls"')], {"C17": "R17.10", "C16": "R16.8"}, base="rf184")
+v("private-constant-stars-swapped", [(P, "_SINGLE_STAR: Literal[1] = 1  # `func(*arg)`", "_SINGLE_STAR: Literal[1] = 2  # `func(*arg)`")], {"C05": "viol"}, base="rf184")
+# round 18: what a plain callback returns is not awaited; asyncio's predicates; no time-outs on the control connection; blank lines; socket path as given
+_HLP = "internals/helpers.py"
+v("execute-optional-awaits-what-plain-callbacks-return", [(_HLP, "    return cast(_R, function(*args, **kwargs))\n\n\n@overload\ndef star_function", "    out = function(*args, **kwargs)\n    if hasattr(out, \"__await__\"):\n        out = await out\n    return cast(_R, out)\n\n\n@overload\ndef star_function")], {"C02": "R02.12", "C03": "R03.6", "C08": "R08.13"})
+v("P-execute-optional-flag-decided-before-the-call", [], {"C02": "ok", "C03": "ok", "C08": "ok", "C05": "ok"}, base="rf180")
+v("pool-uses-inspect-predicates", [(P, "from asyncio.coroutines import iscoroutine, iscoroutinefunction\n", "from inspect import iscoroutine, iscoroutinefunction\n")], {"C04": "R04.13", "C09": "R09.7"})
+v("P-pool-imports-predicates-from-asyncio", [(P, "from asyncio.coroutines import iscoroutine, iscoroutinefunction\n", "from asyncio import iscoroutine, iscoroutinefunction\n")], {"C04": "ok", "C09": "ok"})
+v("client-gives-up-waiting-for-the-reply", [(CLI, "        print((await reader.read(SESSION_MSG_BYTES)).decode())\n\n    async def start", "        import asyncio\n        try:\n            data = await asyncio.wait_for(reader.read(SESSION_MSG_BYTES), 5)\n        except asyncio.TimeoutError:\n            return\n        print(data.decode())\n\n    async def start")], {"C17": "R17.18", "C18": "R18.12"})
+v("client-sends-blank-lines", [(CLI, "        return cmd or None  # will be None if `cmd` is an empty string\n", "        return cmd\n")], {"C19": "R19.11"})
+v("P-client-guard-then-return", [], {"C19": "ok"}, base="rf174")
+v("client-guard-removed-then-return", [(CLI, "        if not cmd:  # empty string\n            return None\n        return cmd\n", "        return cmd\n")], {"C19": "R19.11"}, base="rf174")
+v("unix-server-socket-path-made-absolute", [(SV, "        self._socket_path = Path(socket_path)\n", "        self._socket_path = Path(socket_path).absolute()\n")], {"C16": "R16.10"})
+v("P-unix-server-socket-path-through-str", [(SV, "        self._socket_path = Path(socket_path)\n", "        self._socket_path = Path(str(socket_path))\n")], {"C16": "ok", "C19": "ok"})
+v("final-callback-forgets-the-server", [(SV, "    def _final_callback(self) -> None:\n        log.debug(\"Closed socket at %s:%s\", self._host, self._port)\n", "    def _final_callback(self) -> None:\n        self._server = None\n        log.debug(\"Closed socket at %s:%s\", self._host, self._port)\n")], {"C18": "R18.11", "C19": "R19.1"})
+v("wrapper-ends-bookkeeping-only-for-exceptions", [(P, "            return await awaitable\n", "            result = await awaitable\n"), (P, "            return None\n        finally:\n            await self._task_ending(task_id, custom_callback=end_callback)\n", "            result = None\n        except Exception:\n            await self._task_ending(task_id, custom_callback=end_callback)\n            raise\n        await self._task_ending(task_id, custom_callback=end_callback)\n        return result\n")], {"C14": "R14.5", "C02": "viol"})
+v("P-client-conditional-expression-return", [], {"C19": "ok"}, base="rf9")
+v("client-returns-command-unless-none", [(CLI, "        return cmd or None  # will be None if `cmd` is an empty string\n", "        return cmd if cmd is not None else None\n")], {"C19": "R19.11"})
+v("P-shared-call-and-await-helper", [], {"C02": "ok", "C03": "ok", "C05": "ok", "C08": "ok"}, base="rf80")
+v("shared-helper-awaits-by-result", [(_HLP, "    if iscoroutinefunction(function):\n        return await cast(Awaitable[_R], function(*args, **kwargs))\n    return cast(_R, function(*args, **kwargs))\n", "    out = function(*args, **kwargs)\n    if hasattr(out, \"__await__\"):\n        out = await out\n    return cast(_R, out)\n")], {"C03": "viol", "C02": "viol"}, base="rf80")
